@@ -38,6 +38,8 @@ type Conn struct {
 	// DeadlineErr: the Set*Deadline calls take effect and then report an error (a transport wrapper whose underlying call half
 	// succeeded)
 	DeadlineErr bool
+	// DeadlineDelay: SetDeadline takes this long (virtual time) before it takes effect and returns
+	DeadlineDelay time.Duration
 }
 
 var errDeadline = errors.New("vnet: deadline call reports an error")
@@ -117,6 +119,11 @@ func (c *Conn) arm(t time.Time) {
 }
 
 func (c *Conn) SetDeadline(t time.Time) error {
+	if c.DeadlineDelay > 0 {
+		// a transport on which setting a deadline takes time (it waits for a lock that a Write in progress holds, say): the call
+		// takes effect, and returns, only then
+		vs.Sleep(c.DeadlineDelay)
+	}
 	c.log("SetDeadline", t)
 	c.rdl, c.wdl = t, t
 	c.arm(t)
